@@ -2,7 +2,7 @@ CONSTANTS
   BufCap = 25
   HeadLimit = 10
   TotalLimit = 0
-  MaxRecs = 5
+  MaxRecs = 4
   MaxFiles = 5
   MaxCrash = 0
   MaxStop = 1
